@@ -80,8 +80,14 @@ def asym_proposal_for(name):
     return asym_proposal
 
 
-def make_kernel(name, consts):
+def make_kernel(name, consts, late=False):
+    """late: the kernel is constructed with the default constants and configured afterwards through its public da_*
+    attributes (the only way to configure a ready-made kernel, e.g. those of dist_reg_mcmc)."""
     target, gamma, kappa, t0, eps0 = consts
+    if late:
+        k, tunes, hasmm = make_kernel(name, (0.8 if name in ("hmc", "nuts", "nuts_auto") else 0.234, 0.05, 0.75, 10, eps0))
+        k.da_target_accept, k.da_gamma, k.da_kappa, k.da_t0 = target, gamma, kappa, t0
+        return k, tunes, hasmm
     kw = dict(da_target_accept=target, da_gamma=gamma, da_kappa=kappa, da_t0=t0)
     if name == "rw":
         return gs.RWKernel(["x"], initial_step_size=eps0, **kw), True, False
@@ -110,10 +116,10 @@ SCHEDULES = [
 ]
 
 
-def engine_traces(names, consts, schedule, chains=2, seed=0, chunk_thin=1):
+def engine_traces(names, consts, schedule, chains=2, seed=0, chunk_thin=1, late=False):
     """Runs one engine with the given real kernels (each behind a WrapKernel) and returns
     one trace per (chain, kernel)."""
-    inner = [make_kernel(n, consts) for n in names]
+    inner = [make_kernel(n, consts, late=late) for n in names]
     wraps = [WrapKernel(k, n_tun=4, cap=8 + sum(d for _, d in schedule) + 4 * len(schedule),
                         tun_fn=lambda ks: _tun4(ks)) for k, _, _ in inner]
     b = gs.EngineBuilder(seed=seed, num_chains=chains)
